@@ -623,6 +623,14 @@ def Alternates (p : Point) : (Nat → Option Facts) → List Msg → Prop
   | _, [] => True
   | cur, m :: ms => (m.points.contains p = true → m.on = true → cur m.item = none) ∧ Alternates p (microStep p cur m) ms
 
+/-- Executable form of `Alternates` (also demanding that nothing is switched off while it is off, which the
+    `set.remove` registers rely on). -/
+def alternatesB (p : Point) : (Nat → Option Facts) → List Msg → Bool
+  | _, [] => true
+  | cur, m :: ms =>
+    (!m.points.contains p || (if m.on then (cur m.item).isNone else (cur m.item).isSome)) &&
+      alternatesB p (microStep p cur m) ms
+
 /-- Sum of an attribute over register members resolved in the snapshot (`used` of the resource registers). -/
 def regSum (val : Nat → Rat) (reg : Eos.Toggle.Reg Unit) : Rat := (reg.map fun x => val x.1).foldl (· + ·) 0
 
